@@ -25,6 +25,58 @@ func runC05(p *core.Prog, r *core.Report) {
 	c05R1(p, r)
 	c05R2(p, r)
 	c05R3(p, r)
+	c05R6(p, r)
+}
+
+// c05R6: the fall-back from a single request to a chunked transfer, and the resend of a request body
+// after a transient failure, rewind the source. Where the client itself uploads a blob it fetched
+// (BlobCopy), the value it hands to BlobPut must be able to seek.
+func c05R6(p *core.Prog, r *core.Report) {
+	const rule = "C05.R6"
+	r.Rule(rule, "the copy hands over a rewindable source: in the client's BlobCopy the reader given to BlobPut has a static type with a Seek method (a wrapper that only reads takes the fall-back to a chunked transfer and the resend after a transient failure away)", 1)
+	fn := p.Method(".", "RegClient", "BlobCopy")
+	if fn == nil {
+		r.MissingAnchor(rule, "regclient.(*RegClient).BlobCopy")
+		return
+	}
+	n := 0
+	lab := labeler{}
+	for _, f := range sortedFuncs(unitFuncs(fn, 2, nil)) {
+		for _, c := range core.CallsTo(f, func(cal *types.Func) bool { return core.IsModMethod(cal, ".", "RegClient", "BlobPut") }) {
+			n++
+			arg := core.CallArg(c, 4)
+			// every concrete or interface type the argument can have before it became an io.Reader
+			bad := ""
+			for _, o := range core.Origins(arg, core.SliceOpts{}) {
+				t := o.Val.Type()
+				if mi, ok := o.Val.(*ssa.MakeInterface); ok {
+					t = mi.X.Type()
+				}
+				if !hasMethod(t, "Seek") {
+					bad = t.String()
+				}
+			}
+			if t := underIface(arg).Type(); bad == "" && !hasMethod(t, "Seek") && len(core.Origins(arg, core.SliceOpts{})) == 0 {
+				bad = t.String()
+			}
+			r.Check(bad == "", rule, p.FuncName(f), lab.next("source of BlobPut"), p.Pos(c.Pos()), "the upload source is a "+bad+", which cannot seek: after a refused or failed single PUT the registry scheme can neither fall back to a chunked upload nor resend the body")
+		}
+	}
+	if n == 0 {
+		r.MissingAnchor(rule, "BlobPut call in BlobCopy")
+	}
+}
+
+func hasMethod(t types.Type, name string) bool {
+	for _, tt := range []types.Type{t, types.NewPointer(t)} {
+		ms := types.NewMethodSet(tt)
+		for i := 0; i < ms.Len(); i++ {
+			if ms.At(i).Obj().Name() == name {
+				return true
+			}
+		}
+	}
+	return false
 }
 
 // mismatchEdges returns the edges on which a comparison satisfying pred found a difference.
